@@ -104,7 +104,9 @@ fn passes_inner(prop: &str, tier: Tier) -> Vec<Bounds> {
                     bounds(2, 2, 2, 1, shapes_gen()),
                 ],
                 ("C13", false) => vec![bounds(3, 3, 1, 1, shapes_gen()), bounds(4, 2, 1, 1, shapes_gen()), bounds(2, 3, 2, 2, shapes_gen())],
-                (_, true) => vec![bounds(3, 2, 1, 1, six)],
+                // second pass: two removals in one step, zero-size data sharing an offset (several removed
+                // data at one offset: an ordering of the removed data by offset alone is not total)
+                (_, true) => vec![bounds(3, 2, 1, 1, six), bounds(2, 2, 2, 2, vec![S(0, 1), S(4, 4), S(0, 4), S(1, 1)])],
                 (_, false) => vec![bounds(3, 2, 1, 1, shapes_gen()), bounds(2, 3, 2, 2, shapes_gen()), bounds(4, 2, 1, 1, six)],
             };
             for b in &mut v {
